@@ -6,7 +6,7 @@
      - every sequence of <= MaxLenLite references to ONE global over the "lite" alphabet (no pkgvar,
        no hoisted closure: the hoisted macro already is "a function literal met first")
      - every sequence of <= MaxLen2 references to TWO globals (X and Y), up to renaming
-       (the first global referenced is X)
+       (the first global referenced is X); the longest length over the lite alphabet only
    over the scopes of the shape x {read, write} x {declaration hoisted or not} (macro, closure). *)
 EXTENDS Globals, TLC, Json, SequencesExt
 CONSTANTS MaxLen, MaxLenLite, MaxLen2, Mode
@@ -26,8 +26,9 @@ Canon(refs) == \A i \in 1..Len(refs) : (IsGlobalRef(refs[i]) /\ refs[i].var = "Y
                    => \E j \in 1..(i - 1) : IsGlobalRef(refs[j]) /\ refs[j].var = "X"
 IsLiteRef(r) == r.sc # "pkgvar" /\ ~(r.sc = "closure" /\ r.hoist = 1)
 IsLite(refs) == \A i \in 1..Len(refs) : IsLiteRef(refs[i])
+\* (IF, not \/ : TLC would split an action on a disjunction and generate the same successor twice)
 Allowed(refs) == /\ IF Len(refs) <= MaxLen THEN TRUE ELSE (Len(refs) <= MaxLenLite /\ IsLite(refs))
-                 /\ IF UsesY(refs) THEN (Len(refs) <= MaxLen2 /\ Canon(refs)) ELSE TRUE
+                 /\ IF UsesY(refs) THEN (Len(refs) <= MaxLen2 /\ Canon(refs) /\ (IF Len(refs) < MaxLen2 THEN TRUE ELSE IsLite(refs))) ELSE TRUE
 
 VARIABLE c
 Init == c \in {[sup |-> s, ext |-> e, init |-> <<5, 6>>, refs |-> <<>>] : s \in {"value", "pointer"}, e \in BOOLEAN}
